@@ -58,6 +58,7 @@ READ_FAULTS = ("read_eio", "read_nomem", "read_cancel", "read_short")
 SEEK_FAULTS = ("seek_err", "seek_cancel")
 TELL_FAULTS = ("tell_err", "tell_cancel")
 CONTENT_FAULTS = ("trunc", "flip")
+STREAM_FAULTS = ("nonseekable",)  # the whole stream behaves like a pipe: seekable() is False, seek/tell raise ESPIPE
 OPEN_FAULTS = ("open_enoent", "open_eacces")
 CLOSE_FAULTS = ("close_err",)
 WRITE_FAULTS = ("write_eio", "write_enospc", "write_cancel", "write_short")
@@ -87,8 +88,13 @@ class Ctx:
         self.content = {}  # stream -> [fault]
         self.open_fault = None
         self.in_progress = True
+        self.scratch = False  # True: no-argument BytesIO() calls of rv.container / rv.modules.module become rw SimFiles
+        self.nonseekable = set()
         for f in faults:
             k = f["kind"]
+            if k in STREAM_FAULTS:
+                self.nonseekable.add(f.get("stream", 0))
+                continue
             if k in CONTENT_FAULTS:
                 self.content.setdefault(f.get("stream", 0), []).append(f)
             elif k in OPEN_FAULTS:
@@ -111,6 +117,8 @@ class Ctx:
                         data = bytes(b)
                         self.fired.append(("flip", sid, "content", f["at"]))
         s = SimFile(self, sid, data, origin, mode)
+        if sid in self.nonseekable:
+            s.pipe = True
         self.streams.append(s)
         return s
 
@@ -125,12 +133,13 @@ class SimFile:
         self.origin = origin  # 'arg' | 'path' | 'nested'
         self.mode = mode
         self.data = data if mode == "r" else None
-        self.buf = bytearray() if mode == "w" else None
+        self.buf = bytearray() if mode in ("w", "rw") else None
         self.pos = 0
         self.closed = False
         self.close_calls = 0
         self.counts = {"read": 0, "seek": 0, "tell": 0, "write": 0, "close": 0}
         self.capacity = None  # ENOSPC model for writers
+        self.pipe = False  # non-seekable stream (FIFO, socket, stdin)
 
     # -- seam bookkeeping -------------------------------------------------
     def _seam(self, call, arg=None):
@@ -153,6 +162,8 @@ class SimFile:
     def read(self, n=-1):
         self._check()
         f = self._seam("read", n)
+        if self.mode == "rw":
+            self.data = bytes(self.buf)
         avail = len(self.data) - self.pos
         if n is None or n < 0 or n > avail:
             n = max(avail, 0)
@@ -173,6 +184,9 @@ class SimFile:
     def seek(self, pos, whence=0):
         self._check()
         f = self._seam("seek", (pos, whence))
+        if self.pipe:
+            self.ctx.fired.append(("nonseekable", self.sid, "seek", self.counts["seek"] - 1))
+            raise OSError(errno.ESPIPE, "Illegal seek (simulated pipe)")
         if f is not None:
             if f["kind"] == "seek_err":
                 raise OSError(errno.ESPIPE, "simulated: illegal seek")
@@ -190,6 +204,9 @@ class SimFile:
     def tell(self):
         self._check()
         f = self._seam("tell")
+        if self.pipe:
+            self.ctx.fired.append(("nonseekable", self.sid, "tell", self.counts["tell"] - 1))
+            raise OSError(errno.ESPIPE, "Illegal seek (simulated pipe)")
         if f is not None:
             if f["kind"] == "tell_err":
                 raise OSError(errno.ESPIPE, "simulated: illegal seek (tell)")
@@ -241,7 +258,7 @@ class SimFile:
         return self.mode == "r"
 
     def seekable(self):
-        return True
+        return not self.pipe
 
 
 class SimDisk:
@@ -290,17 +307,45 @@ def _sim_bytesio(*a, **kw):
     return ctx.new_stream(bytes(a[0]), "nested")
 
 
+def _sim_scratch_bytesio(*a, **kw):
+    """The scratch buffer of Container.clone() / Module.clone(): written, rewound, then
+    *loaded from*.  Only the outermost one of an operation is simulated (stream 0)."""
+    ctx = CURRENT
+    if ctx is None or a or not ctx.in_progress or not ctx.scratch or ctx.streams:
+        return _real_bytesio(*a, **kw)
+    return ctx.new_stream(b"", "scratch", mode="rw")
+
+
+class _IoShim:
+    """Stands in for the name `io` inside rv.modules.module (which calls io.BytesIO())."""
+
+    def __getattr__(self, name):
+        if name == "BytesIO":
+            return _sim_scratch_bytesio
+        return getattr(io, name)
+
+
 def install():
     """Idempotent; pass-through unless a Ctx is active."""
     pathlib.Path.open = _sim_path_open
     _mm.BytesIO = _sim_bytesio
     _sm.BytesIO = _sim_bytesio
+    import rv.container as _ct
+    import rv.modules.module as _mod
+
+    _ct.BytesIO = _sim_scratch_bytesio
+    _mod.io = _IoShim()
 
 
 def uninstall():
     pathlib.Path.open = _real_path_open
     _mm.BytesIO = _real_bytesio
     _sm.BytesIO = _real_bytesio
+    import rv.container as _ct
+    import rv.modules.module as _mod
+
+    _ct.BytesIO = _real_bytesio
+    _mod.io = io
 
 
 class active:
@@ -328,5 +373,6 @@ STUBS = [
     "pathlib.Path.open (names under /simdisk/)",
     "BytesIO@rv.modules.metamodule",
     "BytesIO@rv.modules.sampler",
+    "BytesIO@rv.container and io.BytesIO@rv.modules.module (scratch buffer of clone(), only when a Ctx asks for it)",
     "logging handler on logger 'rv'",
 ]
